@@ -46,14 +46,25 @@ CancelSets == <<
   <<Long, BlockSched, Long>>,      \* 6
   <<BlockGun, BlockWarm>>          \* 7
 >>
+\* pools that share an id (Engine.tla, "pool ids"): Run must still wait for EVERY pool - it returns nil only after the
+\* slow pool is through, and the failure of the failing pool whenever that pool gets its result in
+DupSets == <<
+  <<"same",    <<Ok, Slow>>>>,         \* 1  the short pool's result must not end the run
+  <<"same",    <<Ok, FailProv>>>>,     \* 2  ... nor hide the other pool's failure
+  <<"same",    <<Ok, Slow, Ok2>>>>,    \* 3
+  <<"default", <<Slow, Ok>>>>,         \* 4  `id: pool_1` on the first pool = the generated id of the second
+  <<"default", <<Ok, FailAgg>>>>       \* 5
+>>
 \* ids 6000+: the poolrun driver and TracePoolRun / TraceEngine tell plans apart by id
-PlansNC == { [id |-> 6000 + i, pools |-> PoolSets[i], cancel |-> FALSE] : i \in 1..Len(PoolSets) }
-PlansC  == { [id |-> 6100 + i, pools |-> CancelSets[i], cancel |-> TRUE] : i \in 1..Len(CancelSets) }
-AllPlans == PlansNC \cup PlansC
+PlansNC == { [id |-> 6000 + i, pools |-> PoolSets[i], cancel |-> FALSE, dupid |-> "none"] : i \in 1..Len(PoolSets) }
+PlansC  == { [id |-> 6100 + i, pools |-> CancelSets[i], cancel |-> TRUE, dupid |-> "none"] : i \in 1..Len(CancelSets) }
+PlansD  == { [id |-> 6200 + i, pools |-> DupSets[i][2], cancel |-> FALSE, dupid |-> DupSets[i][1]] : i \in 1..Len(DupSets) }
+AllPlans == PlansNC \cup PlansC \cup PlansD
+NegTrue == TRUE
 LivePlans == PlansNC                       \* a cancel is not a fair step; every no-cancel plan ends by itself or by a failure
 ThreeLong == {pl \in PlansNC : pl.id \in {6003, 6008}}
 BlockPlans == {pl \in PlansC : pl.id \in {6105, 6106, 6107}}
-QuickPlans == {pl \in AllPlans : pl.id \in {6003, 6006, 6012, 6103, 6107}}
+QuickPlans == {pl \in AllPlans : pl.id \in {6003, 6006, 6012, 6103, 6107, 6201, 6202}}
 PromptPlans == {pl \in PlansC : pl.id \in {6103, 6104, 6107}}
 TwoFail == {pl \in AllPlans : pl.id \in {6009, 6010}}
 OneThree == {pl \in AllPlans : pl.id = 6006}
